@@ -118,6 +118,8 @@ Proof.
   destruct r as [|reason debug i|[| |] [[reason debug]|]|ee sv]; cbn [handle_result]; try discriminate.
   - intros H. inversion H; subst. split; [exists []; rewrite app_nil_r; auto|]. right. left. eexists. split; [|reflexivity]. discriminate.
   - intros H. apply handle_go_away_spec in H. destruct H as (A & B & _). auto.
+  - intros H. inversion H; subst. split; [exists []; rewrite app_nil_r; auto|]. left. reflexivity.
+  - intros H. inversion H; subst. split; [exists []; rewrite app_nil_r; auto|]. left. reflexivity.
   - intros H. apply handle_go_away_spec in H. destruct H as (A & B & _). auto.
   - intros H. inversion H; subst. split; [exists [OSendReset]; auto|]. left. reflexivity.
   - intros H. inversion H; subst. split; [exists []; rewrite app_nil_r; auto|]. left. reflexivity.
@@ -127,15 +129,12 @@ Proof.
     + split; [exists [OStreamsError; OConnResult CRIo]; auto|]. left. reflexivity.
 Qed.
 
-(* the debug assertion of handle_poll2_result is about a value produced by the (unmodelled) stream layer *)
-Definition res_ok (r : p2res) : bool := match r with RReset IUser _ => false | _ => true end.
-
 Lemma handle_result_panic s o r n :
-  res_ok r = true -> handle_result s o r = SPanic n -> exists gl gr, g_going s = Some (gl, gr) /\ gl < r_last s.
+  handle_result s o r = SPanic n -> exists gl gr, g_going s = Some (gl, gr) /\ gl < r_last s.
 Proof.
-  destruct r as [|reason debug i|[| |] [[reason debug]|]|ee sv]; cbn [handle_result res_ok]; try discriminate.
-  - intros _. apply handle_go_away_panic.
-  - intros _. apply handle_go_away_panic.
+  destruct r as [|reason debug i|[| |] [[reason debug]|]|ee sv]; cbn [handle_result]; try discriminate.
+  - apply handle_go_away_panic.
+  - apply handle_go_away_panic.
   - destruct (ee && (sv || error_is_no_error s)); discriminate.
 Qed.
 
@@ -265,9 +264,9 @@ Proof.
   - eapply InvG_go_away_now; [exact HI|exact E].
 Qed.
 
-Lemma InvG_result_nopanic s h o r n : res_ok r = true -> InvG s h -> handle_result s o r <> SPanic n.
+Lemma InvG_result_nopanic s h o r n : InvG s h -> handle_result s o r <> SPanic n.
 Proof.
-  intros Hr HI H. apply handle_result_panic in H; [|exact Hr]. destruct H as (gl & gr & Eg & Hlt).
+  intros HI H. apply handle_result_panic in H. destruct H as (gl & gr & Eg & Hlt).
   pose proof (G6 _ _ HI gl gr Eg). lia.
 Qed.
 
@@ -307,7 +306,7 @@ Lemma InvG_after_go_away_nopanic s h o l reason n :
 Proof.
   intros HI Ep Eg. unfold after_go_away, should_close_now. rewrite Ep.
   destruct (g_close_now s) eqn:Ec.
-  - destruct (g_user s); apply (InvG_result_nopanic _ h); auto.
+  - destruct (g_user s); apply (InvG_result_nopanic _ h); exact HI.
   - destruct (G3 _ _ HI Ec l reason Eg) as (A & _). subst reason. cbn. discriminate.
 Qed.
 
@@ -477,15 +476,9 @@ Qed.
 
 (* ---------------------------------------------------------------------------------------------- no assert fires *)
 
-Definition label_ok (l : label) : bool :=
-  match l with
-  | LResult r => res_ok r
-  | _ => true
-  end.
-
-Theorem step_nopanic s h l n : InvG s h -> label_ok l = true -> cstep s l <> SPanic n.
+Theorem step_nopanic s h l n : InvG s h -> cstep s l <> SPanic n.
 Proof.
-  intros HI Hok.
+  intros HI.
   destruct l as [p| |reason| | | | | |hs|c| |c|c|c|c ae|c|f|r]; cbn [cstep].
   - destruct (s_local s); discriminate.
   - destruct (g_going s) as [g|] eqn:Eg; [discriminate|].
@@ -530,7 +523,7 @@ Proof.
   - destruct (negb (in_poll_ready s)); [discriminate|].
     destruct (s_remote s) as [p|]; [|discriminate]. destruct c; try discriminate.
     destruct ae as [r|]; [|discriminate].
-    apply (InvG_result_nopanic _ h); [reflexivity|]. eapply InvG_same; [|exact HI]. repeat split; reflexivity.
+    apply (InvG_result_nopanic _ h). eapply InvG_same; [|exact HI]. repeat split; reflexivity.
   - destruct (negb (in_poll_ready s)); [discriminate|]. destruct (s_remote s); [discriminate|].
     destruct (s_local s); try destruct c; discriminate.
   - destruct (can_recv s) eqn:Ecr; cbn [negb]; [|discriminate].
@@ -538,9 +531,9 @@ Proof.
     destruct f as [p|ae|ack pl|last reason debug|id raised| |]; cbn [recv_frame].
     + rewrite Hrem. discriminate.
     + destruct (s_local s) as [q|q|].
-      * apply (InvG_result_nopanic _ h); auto.
-      * destruct ae as [r|]; [|discriminate]. apply (InvG_result_nopanic _ h); auto.
-      * apply (InvG_result_nopanic _ h); auto.
+      * apply (InvG_result_nopanic _ h); exact HI.
+      * destruct ae as [r|]; [|discriminate]. apply (InvG_result_nopanic _ h); exact HI.
+      * apply (InvG_result_nopanic _ h); exact HI.
     + rewrite Hpong. destruct ack; [|discriminate].
       assert (Huser : (let '(u, o) := user_receive_pong (p_user s) pl in SOk (set_ping s (p_ping s) None u) o FNext) <> SPanic n).
       { destruct (user_receive_pong (p_user s) pl). discriminate. }
@@ -552,11 +545,11 @@ Proof.
       apply conn_go_away_panic in Ec. cbn in Ec. destruct Ec as [Hlt|(gl' & gr' & E & Hlt)].
       * pose proof (G5 _ _ HI). lia.
       * pose proof (G6 _ _ HI gl' gr' E). lia.
-    + destruct (s_max s <? last); [|discriminate]. apply (InvG_result_nopanic _ h); auto.
+    + destruct (s_max s <? last); [|discriminate]. apply (InvG_result_nopanic _ h); exact HI.
     + destruct raised; [|discriminate]. destruct (r_max s <? id); [discriminate|]. destruct (id <=? r_last s); discriminate.
     + discriminate.
-    + apply (InvG_result_nopanic _ h); auto.
-  - destruct (negb (is_open s)); [discriminate|]. apply (InvG_result_nopanic _ h); auto.
+    + apply (InvG_result_nopanic _ h); exact HI.
+  - destruct (negb (is_open s)); [discriminate|]. apply (InvG_result_nopanic _ h); exact HI.
 Qed.
 
 (* ==============================================================================================
@@ -1159,18 +1152,16 @@ Proof.
     inversion H; subst. cbn [upd_trace]. eapply IH; [|exact E2]. eapply step_inv; eauto.
 Qed.
 
-(* no assert!/assert_eq!/debug_assert_eq! of settings.rs, ping_pong.rs, go_away.rs, connection.rs (and Recv::go_away) fires,
-   as long as the stream layer never hands poll2 a stream error with Initiator::User (label_ok) *)
-Theorem run_nopanic ls : forall s h, Inv s h -> forallb label_ok ls = true ->
+(* no assert!/assert_eq!/debug_assert_eq! of settings.rs, ping_pong.rs, go_away.rs, connection.rs (and Recv::go_away) fires *)
+Theorem run_nopanic ls : forall s h, Inv s h ->
   match crun s ls with inr (_, SPanic _) => False | _ => True end.
 Proof.
-  induction ls as [|l ls IH]; intros s h HI Hok; cbn [crun]; [exact I|].
-  cbn [forallb] in Hok. apply andb_true_iff in Hok. destruct Hok as (Hl & Hls).
+  induction ls as [|l ls IH]; intros s h HI; cbn [crun]; [exact I|].
   destruct (cstep s l) as [s1 o1 f1|n|n] eqn:E.
-  - pose proof (step_inv _ _ _ _ _ _ HI E) as HI1. specialize (IH s1 _ HI1 Hls).
+  - pose proof (step_inv _ _ _ _ _ _ HI E) as HI1. specialize (IH s1 _ HI1).
     destruct (crun s1 ls) as [[s2 tr2]|[k r]]; [exact I|]. destruct r; auto.
   - exact I.
-  - destruct HI as (A & _). exact (step_nopanic _ _ _ _ A Hl E).
+  - destruct HI as (A & _). exact (step_nopanic _ _ _ _ A E).
 Qed.
 
 (* ==============================================================================================
@@ -1449,8 +1440,8 @@ Proof.
 Qed.
 
 Theorem C15_no_assert p0 ls :
-  forallb label_ok ls = true -> match crun (init p0) ls with inr (_, SPanic _) => False | _ => True end.
-Proof. intros H. exact (run_nopanic ls _ _ (Inv_init p0) H). Qed.
+  match crun (init p0) ls with inr (_, SPanic _) => False | _ => True end.
+Proof. exact (run_nopanic ls _ _ (Inv_init p0)). Qed.
 
 (* HEADERS above Recv::max_stream_id never raise last_processed_id (a guard of the model that the lock-step checks), and
    go_away(id) lowers max_stream_id in the same label (C15_shutdown_pong below) *)
@@ -1553,7 +1544,9 @@ Proof.
   cbn [lift g_close_now set_ids set_ping g_user]. rewrite Hcn. reflexivity.
 Qed.
 
-Theorem C15_idle_close s l r :
+(* known finding KF-C15-1: GoAway::should_close_on_idle recognises the final GOAWAY of a graceful shutdown by
+   `last_processed_id != StreamId::MAX`; the theorem therefore carries the hypothesis l <> MAX_ID ... *)
+Theorem C15_idle_close_except_known s l r :
   is_open s = true -> g_close_now s = false -> g_going s = Some (l, r) -> l <> MAX_ID ->
   cstep s (LIdle false) = lift (ga_go_away_now s (r_last s, NO_ERROR, [])) [] FNext.
 Proof.
@@ -1561,6 +1554,17 @@ Proof.
   destruct (l =? MAX_ID) eqn:E; [apply N.eqb_eq in E; contradiction|]. cbn [negb andb orb].
   destruct (c_error s); reflexivity.
 Qed.
+
+(* ... and without it the statement is false: when the final GOAWAY names stream 2^31-1 (the peer's processed stream has the
+   maximal id) the idle branch never starts the close, whether or not streams are left: Connection::poll returns Pending *)
+Theorem C15_idle_close_known_refuted s r hs :
+  is_open s = true -> g_close_now s = false -> g_going s = Some (MAX_ID, r) -> c_error s = None ->
+  cstep s (LIdle hs) = SOk s [] FPending.
+Proof.
+  intros Ho Ec Eg Ee. cbn [cstep]. rewrite Ho. cbn [negb]. unfold should_close_on_idle. rewrite Ec, Eg, Ee.
+  rewrite N.eqb_refl. reflexivity.
+Qed.
+
 
 Theorem C15_close_now_closes s h l r :
   InvG s h -> is_open s = true -> g_close_now s = true -> g_user s = false -> g_going s = Some (l, r) ->
@@ -1671,3 +1675,19 @@ Example demo_user_cell :
   frun (mkF UEmpty false) [FUserSend; FLoad; FUserSend; FUserPoll; FStore; FReceivePong; FUserPoll; FDrop; FUserSend]
   = Some (mkF UClosed false).
 Proof. vm_compute. reflexivity. Qed.
+
+(* the same on a complete run: request 2^31-1, graceful shutdown, PONG, final GOAWAY(2^31-1), all streams done: still Pending *)
+Example demo_known_refuted :
+  match crun (init no_params)
+             [ LPollGoAway Ready; LPollPong Ready; LPollPing Ready; LSettingsAck Ready None; LSettingsLocal Ready;
+               LRecv (InHeaders MAX_ID true); LGraceful;
+               LPollGoAway Ready; LPollPong Ready; LPollPing Ready; LSettingsAck Ready None; LSettingsLocal Ready;
+               LRecv (InPing true PING_SHUTDOWN);
+               LPollGoAway Ready; LPollPong Ready; LPollPing Ready; LSettingsAck Ready None; LSettingsLocal Ready;
+               LIdle false ] with
+  | inl (s, tr) =>
+    frames_of tr = [WGoAway MAX_ID NO_ERROR []; WPing false PING_SHUTDOWN; WGoAway MAX_ID NO_ERROR []] /\
+    c_state s = COpen /\ g_close_now s = false /\ snd (last tr (LIdle false, [], FNext)) = FPending
+  | inr _ => False
+  end.
+Proof. vm_compute. repeat split; reflexivity. Qed.
